@@ -21,7 +21,7 @@ func toModelRules(rs []drive.Rule) []model.RMWRule {
 }
 
 func runC13(run *common.Run) {
-	run.Rule = "case = one program on one engine: a prior row state (cells at clock-1ms / clock / clock+1h / 0, values of length 0,1,7,8,9) followed by 2-6 ReadModifyWriteRow requests with 0-5 rules (repeated columns, mixed append/increment, extreme amounts, unknown family at any position; every third program uses families that are prefixes of one another with qualifiers whose concatenations collide) under a moving injected clock (non-millisecond values, backward steps); after each request the response row and a full re-read are compared with the RMW model. Non-trivial = at least one request hit a prior cell in the future of the clock and one request was rejected or wrapped around; distinct by program x engine."
+	run.Rule = "case = one program on one engine: a prior row state (cells at clock-1ms / clock / clock+1h / 0, values of length 0,1,7,8,9) followed by 2-6 ReadModifyWriteRow requests with 0-5 rules (repeated columns, mixed append/increment, extreme amounts, unknown family at any position; every third program starts from rows with 40 columns in one family and names new columns that sort between them, every third program uses families that are prefixes of one another with qualifiers whose concatenations collide) under a moving injected clock (non-millisecond values, backward steps); after each request the response row and a full re-read are compared with the RMW model. Non-trivial = at least one request hit a prior cell in the future of the clock and one request was rejected or wrapped around; distinct by program x engine."
 	run.Assumptions = []string{"an increment on an existing cell whose value is empty may fail without change or count as 0", "family order in the response row is not compared", "a request with no rules may be rejected or be a no-op"}
 	j := common.NewJournal("C13")
 	nprog := run.N(1500, 30000)
@@ -53,6 +53,13 @@ func c13Program(run *common.Run, prog int, engine string, idx int) {
 		fams = []string{"f", "f1", "f1q"}
 		quals = []string{"", "q", "1q", "1"}
 		run.Count("programs_with_prefix_related_families", 1)
+	}
+	wide := prog%3 == 1
+	if wide {
+		// rows whose first family already holds 40 columns c00..c39; the rules name (repeatedly) existing columns and
+		// new columns that sort before, between and after them
+		quals = []string{"a", "c05", "c20x", "zz", "c39"}
+		run.Count("programs_with_40_column_rows", 1)
 	}
 	table := drive.MustTable(srv.Admin, "t", fams...)
 	m := model.NewTable(fams...)
@@ -86,6 +93,11 @@ func c13Program(run *common.Run, prog int, engine string, idx int) {
 				val = string([]byte{0, 0, 0, 0, 0, 0, 0, byte(r.Intn(200))})
 			}
 			muts = append(muts, model.Mut{Kind: model.SetCell, Fam: common.Pick(r, fams), Qual: common.Pick(r, quals), TS: ts, Val: val})
+		}
+		if wide {
+			for c := 0; c < 40; c++ {
+				muts = append(muts, model.Mut{Kind: model.SetCell, Fam: fams[0], Qual: fmt.Sprintf("c%02d", c), TS: model.TruncMs(clock) - 1000, Val: string([]byte{0, 0, 0, 0, 0, 0, 0, byte(c)})})
+			}
 		}
 		if len(muts) == 0 {
 			continue
